@@ -434,6 +434,8 @@ def canonJudge : Judge := liftJudge fun input obs => do
       !(optBool obs "verify_ok" && optBool obs "tamper_ok") ||
         (covered cfg clock ctx after == covered cfg clock ctx tampered && (cfg.excludeBody || tb == seen))
     | .error _ => !(optBool obs "verify_ok")
+  -- spec 3: only a key id of the store, signed with its secret, is accepted
+  let credOK := !optBool obs "verify_ok" || (optBytes input "store_key" == key && optBytes input "store_secret" == secret)
   let kind := optStr input "tamper"
   let tags := [if presignMode then "presign" else "header-mode", "tamper:" ++ kind,
       (if optBool obs "verify_ok" then "verify-ok" else "verify-" ++ goV),
@@ -444,10 +446,10 @@ def canonJudge : Judge := liftJudge fun input obs => do
   let note := (if sameReq then "" else "signed request differs; ") ++ String.intercalate "," (badComps.map (·.1))
     ++ (if verifyAgree then "" else " verify: go=" ++ goV ++ " model=" ++ errTag v0)
     ++ (if tamperAgree then "" else " tamper verdict differs")
-  pure { agree := sameReq && badComps.isEmpty && verifyAgree && tamperAgree, spec := complete && sound,
+  pure { agree := sameReq && badComps.isEmpty && verifyAgree && tamperAgree, spec := complete && sound && credOK,
          expected := Json.mkObj (comps.map fun c => (c.1, Json.str (bs c.2.1))),
          tags := tags, nontrivial := optBool obs "verify_ok" && !optBool obs "tamper_ok",
-         sig := if !complete then "signer:valid-signature-rejected" else if !sound then "signer:tamper-accepted:" ++ kind else "",
+         sig := if !credOK then "signer:accepted-unknown-credential" else if !complete then "signer:valid-signature-rejected" else if !sound then "signer:tamper-accepted:" ++ kind else "",
          note := note }
 
 def judges : List (String × Judge) := [("validator", validatorJudge), ("canon", canonJudge)]
